@@ -2,6 +2,7 @@
   C06 — a failure is persisted and automatically replayed first on the next run.
 -/
 import RapidModel.Generated.Consts
+import RapidModel.Generated.CallOrders
 import RapidProofs.Shrink
 import RapidModel.Persist
 import RapidProofs.RoundTrip
@@ -111,5 +112,30 @@ theorem source_save_load_round_trip (v : Bytes) (hv : VersionOK v) (output : Byt
 /-- the hypotheses are satisfiable -/
 example : ∃ w, Rapid.Translated.saveFailFile_bytes [118, 49] [104, 105] 7 [255, 1] 10 = .ok (w, false) :=
   ⟨_, source_saveFailFile [118, 49] [104, 105] 7 [255, 1] 10 (by decide) (by decide) (by decide) (by decide)⟩
+
+/-- `checkTB` re-read from /repo statement by statement: a failure is saved exactly when no fail file reproduced it and
+    `-rapid.nofailfile` is off — under `failFileName(tb.Name())`, with `rapidVersion`, the captured output, the seed and the
+    minimized words `doCheck` handed back —, and a save error only loses the file name in the message -/
+theorem checkTB_body_source : Rapid.Generated.body_checkTB =
+    ["{", "tb.Helper()", "checks := flags.checks", "if testing.Short() {", "checks /= 5", "}", "start := time.Now()",
+     "valid, invalid, earlyExit, seed, failfile, buf, err1, err2 := doCheck(tb, deadline, checks, baseSeed(), flags.failfile, true, prop)",
+     "dt := time.Since(start)", "if err1 == nil && err2 == nil {",
+     "if valid == checks || (earlyExit && valid > 0) {", "tb.Logf(\"[rapid] OK, passed %v tests (%v)\", valid, dt)",
+     "} else {", "tb.Errorf(\"[rapid] only generated %v valid tests from %v total (%v)\", valid, valid+invalid, dt)",
+     "}", "} else {", "if failfile == \"\" && !flags.nofailfile {", "_, failfile = failFileName(tb.Name())",
+     "out := captureTestOutput(tb, prop, buf)", "err := saveFailFile(failfile, rapidVersion, out, seed, buf)",
+     "if err != nil {", "tb.Logf(\"[rapid] %v\", err)", "failfile = \"\"", "}", "}", "var repr string", "switch {",
+     "case failfile != \"\" && seed != 0:",
+     "repr = fmt.Sprintf(\"-rapid.failfile=%q (or -rapid.seed=%d)\", failfile, seed)", "case failfile != \"\":",
+     "repr = fmt.Sprintf(\"-rapid.failfile=%q\", failfile)", "case seed != 0:",
+     "repr = fmt.Sprintf(\"-rapid.seed=%d\", seed)", "}", "name := regexp.QuoteMeta(tb.Name())",
+     "if traceback(err1) == traceback(err2) {", "if err2.isStopTest() {",
+     "tb.Errorf(\"[rapid] failed after %v tests: %v\\nTo reproduce, specify -run=%q %v\\nFailed test output:\", valid, err2, name, repr)",
+     "} else {",
+     "tb.Errorf(\"[rapid] panic after %v tests: %v\\nTo reproduce, specify -run=%q %v\\nTraceback:\\n%vFailed test output:\", valid, err2, name, repr, traceback(err2))",
+     "}", "} else {",
+     "tb.Errorf(\"[rapid] flaky test, can not reproduce a failure\\nTo try to reproduce, specify -run=%q %v\\nTraceback (%v):\\n%vOriginal traceback (%v):\\n%vFailed test output:\", name, repr, err2, traceback(err2), err1, traceback(err1))",
+     "}", "_ = checkOnce(newT(tb, newBufBitStream(buf, false), true, nil), prop)", "}", "if tb.Failed() {",
+     "tb.FailNow()", "}", "}"] := by rfl
 
 end Rapid.C06
